@@ -738,10 +738,12 @@ def c20(prop, tier, seed):
         D.run_sharded(agg, binp, prop, seed, n, tier, variant=variant, tag="n", workers=4, extra={"max_threads": 16})
     # cold-start campaign: one case per process, the parallel schedule comes before any other calculation of that process
     # (racy lazy initialisation of process-wide state can only show in the first calculations of a process)
-    n_cold = 48 if quick else 1200
+    # One process at a time (its 16 threads get the 16 cores; a process takes ~15 ms). The window of such a race is a few
+    # microseconds: on a seeded racy lazy-init about 1 % (dbg) / 0.3 % (rel) of the processes hit it, hence the large number.
+    n_cold = 1500 if quick else 30000
     for variant in ("rel", "dbg"):
         binp = D.build(variant)
-        D.run_sharded(agg, binp, prop, seed, n_cold, tier, variant=variant, tag="c", workers=4, chunk=1, start=5_000_000,
+        D.run_sharded(agg, binp, prop, seed, n_cold, tier, variant=variant, tag="c", workers=1, chunk=1, start=5_000_000,
                       extra={"max_threads": 16, "cold": 1})
     stats["cold_start_processes"] = 2 * n_cold
     tsan = D.build("tsan")
